@@ -649,18 +649,77 @@ pub fn observe_r<R: Read + Seek>(reader: R, password: Option<&[u8]>, limit: usiz
                 (o, raw)
             };
             o.raw = raw;
-            let opened = match password {
-                Some(pw) => match ar.by_index_decrypt(i, pw) {
-                    Ok(Ok(f)) => Ok(f),
-                    Ok(Err(_)) => Err("<invalid password>".to_string()),
-                    Err(e) => Err(e.to_string()),
-                },
-                None => ar.by_index(i).map_err(|e| e.to_string()),
+            let first = {
+                let opened = match password {
+                    Some(pw) => match ar.by_index_decrypt(i, pw) {
+                        Ok(Ok(f)) => Ok(f),
+                        Ok(Err(_)) => Err("<invalid password>".to_string()),
+                        Err(e) => Err(e.to_string()),
+                    },
+                    None => ar.by_index(i).map_err(|e| e.to_string()),
+                };
+                match opened {
+                    Ok(mut f) => read_to_end_limited(&mut f, limit, 1 << 16),
+                    Err(e) => Err(format!("open: {e}")),
+                }
             };
-            o.content = match opened {
-                Ok(mut f) => read_to_end_limited(&mut f, limit, 1 << 16),
-                Err(e) => Err(format!("open: {e}")),
-            };
+            o.content = first;
+            // small entries are read again through the other ways std::io::Read offers (a reader may override any of them):
+            // a prefix taken with read() and the rest appended with read_to_end(); scatter reads into two slices. What they
+            // deliver must be what the plain read loop delivered.
+            if let Ok(c) = &o.content {
+                if c.len() <= 4096 {
+                    for how in 0..2 {
+                        let reopened = match password {
+                            Some(pw) => ar.by_index_decrypt(i, pw).ok().and_then(|r| r.ok()),
+                            None => ar.by_index(i).ok(),
+                        };
+                        let Some(mut f) = reopened else { continue };
+                        let got: Result<Vec<u8>, String> = if how == 0 {
+                            let mut v = vec![0u8; 1];
+                            match f.read(&mut v) {
+                                Ok(0) => Ok(vec![]),
+                                Ok(_) => f.read_to_end(&mut v).map(|_| v).map_err(|e| e.to_string()),
+                                Err(e) => Err(e.to_string()),
+                            }
+                        } else {
+                            let mut out = vec![];
+                            let (mut a, mut b) = ([0u8; 5], [0u8; 11]);
+                            loop {
+                                let n = match f.read_vectored(&mut [std::io::IoSliceMut::new(&mut a), std::io::IoSliceMut::new(&mut b)]) {
+                                    Ok(n) => n,
+                                    Err(e) => break Err(e.to_string()),
+                                };
+                                if n == 0 {
+                                    break Ok(out);
+                                }
+                                if n > 16 {
+                                    break Err(format!("read_vectored returned {n} for 16 bytes of buffers"));
+                                }
+                                out.extend_from_slice(&a[..n.min(5)]);
+                                if n > 5 {
+                                    out.extend_from_slice(&b[..n - 5]);
+                                }
+                                if out.len() > limit {
+                                    break Err("<output limit exceeded>".into());
+                                }
+                            }
+                        };
+                        let name = ["read(1) then read_to_end into the same vector", "read_vectored into two slices"][how];
+                        match got {
+                            Ok(g) if g == *c => {}
+                            Ok(g) => {
+                                o.content = Err(format!("{name} delivers {} bytes that differ from the {} of a plain read loop", g.len(), c.len()));
+                                break;
+                            }
+                            Err(e) => {
+                                o.content = Err(format!("{name} fails on an entry a plain read loop reads: {e}"));
+                                break;
+                            }
+                        }
+                    }
+                }
+            }
             Ok(o)
         });
         match r {
@@ -674,6 +733,29 @@ pub fn observe_r<R: Read + Seek>(reader: R, password: Option<&[u8]>, limit: usiz
 
 // ---------------------------------------------------------------------------------------------
 // shared small alphabets (DESIGN section 4)
+
+/// Short contents whose compressed form is exactly as long as they are, per compressing method (found by search with the
+/// reference codecs at their default levels - the levels the crate uses when none is given): "sizes equal" must not be
+/// taken for "stored".
+pub fn neutral_contents() -> Vec<(u16, Vec<u8>)> {
+    let mut out = vec![];
+    for m in [8u16, 12, 93] {
+        let mut found = None;
+        'search: for unit in [&b"a"[..], b"ab", b"abcd", b"the cat and the hat ", b"0123456789", b"zq"] {
+            for n in 1..200usize {
+                let c: Vec<u8> = unit.iter().cycle().take(n).cloned().collect();
+                if crate::reference::codec::compress(m, &c).len() == c.len() {
+                    found = Some(c);
+                    break 'search;
+                }
+            }
+        }
+        if let Some(c) = found {
+            out.push((m, c));
+        }
+    }
+    out
+}
 
 /// Deterministic content classes, seeded.
 pub fn content_class(class: usize, seed: u64) -> Vec<u8> {
